@@ -18,7 +18,8 @@ const (
 	cbKeyCompare
 	cbRefCount
 	cbChunkMem // values chunked IN MEMORY (Val = first chunk, rest in Transient): the tools/slab pattern
-	cbCodec    // an inverse pair: BeforeItemWrite stores the value encoded (same length), AfterItemRead decodes it
+	cbCodec    // an inverse pair: BeforeItemWrite stores the value encoded with a check byte, AfterItemRead decodes it
+	cbCodecRaw // the same pair WITHOUT an ItemValLength callback: byte totals then depend on what is cached (not compared)
 )
 
 // marks an item produced by the codec's BeforeItemWrite (already in its stored form)
@@ -26,6 +27,9 @@ var codecEncoded interface{} = &struct{ x int }{1}
 
 // valOverhead: bytes the installed value codec adds to every stored value (enters GetTotals)
 var valOverhead int
+
+// bytesUnspecified: the byte totals depend on the cache state (cbCodecRaw) and are left out of dumps
+var bytesUnspecified bool
 
 const cbAllNeutral = cbBeforeWrite | cbAfterRead | cbItemAlloc | cbValLength | cbValWrite | cbValRead | cbKeyCompare
 
@@ -37,7 +41,7 @@ func neutralCallbacks(set int, cmpOf map[string]int) gkvlite.StoreCallbacks {
 	if set&cbAfterRead != 0 {
 		cb.AfterItemRead = func(c *gkvlite.Collection, i *gkvlite.Item) (*gkvlite.Item, error) { return i, nil }
 	}
-	if set&cbCodec != 0 {
+	if set&(cbCodec|cbCodecRaw) != 0 {
 		// what the application sees is unchanged; the bytes in the file are not the application's values (and one
 		// byte longer: a check byte), so this configuration is used only by checks whose oracles are at the API
 		cb.BeforeItemWrite = func(c *gkvlite.Collection, i *gkvlite.Item) (*gkvlite.Item, error) {
@@ -72,11 +76,13 @@ func neutralCallbacks(set int, cmpOf map[string]int) gkvlite.StoreCallbacks {
 			i.Val = i.Val[:n:n]
 			return i, nil
 		}
-		cb.ItemValLength = func(c *gkvlite.Collection, i *gkvlite.Item) int {
-			if i.Transient == codecEncoded {
-				return len(i.Val)
+		if set&cbCodecRaw == 0 {
+			cb.ItemValLength = func(c *gkvlite.Collection, i *gkvlite.Item) int {
+				if i.Transient == codecEncoded {
+					return len(i.Val)
+				}
+				return len(i.Val) + 1 // the length the value has in the file
 			}
-			return len(i.Val) + 1 // the length the value has in the file
 		}
 	}
 	if set&cbItemAlloc != 0 {
